@@ -105,6 +105,27 @@ SPEC: dict[str, list[Unit]] = {
 }
 
 
+def _load_plugins():
+    """harness/srcspec/Cxx.py: UNITS (appended to SPEC[Cxx]) and an optional search(ctx, lits)"""
+    import importlib
+    d = pathlib.Path(__file__).resolve().parent / "srcspec"
+    for f in sorted(d.glob("C[0-9][0-9].py")):
+        m = importlib.import_module(f"harness.srcspec.{f.stem}")
+        SPEC.setdefault(f.stem, [])
+        SPEC[f.stem] = SPEC[f.stem] + list(getattr(m, "UNITS", []))
+        if hasattr(m, "search"):
+            prev = globals().get(f"_search_{f.stem}")
+
+            def both(ctx, lits, _prev=prev, _new=m.search):
+                if _prev is not None:
+                    _prev(ctx, lits)
+                _new(ctx, lits)
+            PLUGIN_SEARCH[f.stem] = both
+
+
+PLUGIN_SEARCH: dict = {}
+
+
 def header(prop, units, report):
     lines = [f"/- GENERATED by harness/srctie.py + harness/py2lean.py from /repo's current source — do not edit by hand.",
              f"   Source-derived definitions for {prop}: each `def` is the translation of the named Python function (PyLite subset:",
@@ -173,6 +194,8 @@ def record_baseline(prop):
 if __name__ == "__main__":
     import os
     import sys
+    from harness import srctie as _st       # the imported module (not __main__) owns SPEC and the plug-ins
+    SPEC, generate, record_baseline = _st.SPEC, _st.generate, _st.record_baseline
     repo = os.environ.get("VERIF_REPO", "/repo")
     for p in sys.argv[1:] or list(SPEC):
         info = generate(p, repo, force=True)
@@ -240,7 +263,7 @@ def _fold(n, depth=0):
 
 
 def search(prop, ctx):
-    fn = globals().get(f"_search_{prop}")
+    fn = PLUGIN_SEARCH.get(prop) or globals().get(f"_search_{prop}")
     if fn is None:
         return
     lits = harvest_literals(prop, ctx_repo())
@@ -390,3 +413,6 @@ def _search_C18(ctx, lits):
                             found += 1
                             if found > 20:
                                 return
+
+
+_load_plugins()
